@@ -6,6 +6,7 @@ import (
 	"time"
 
 	"github.com/acquirecloud/golibs/kvs"
+	dist "github.com/acquirecloud/golibs/kvs/distlock"
 	"github.com/acquirecloud/golibs/kvs/inmem"
 	"github.com/acquirecloud/golibs/timeout"
 )
@@ -18,3 +19,5 @@ func drainTimers()      { timeout.VerifDrain() }
 func timerWorkers() int { return timeout.VerifWatchers() }
 
 func waiterTable(st kvs.Storage) (int, int, bool) { return inmem.VerifWaiterTable(st) }
+
+func setLease(d time.Duration) time.Duration { return dist.VerifSetLease(d) }
